@@ -18,7 +18,7 @@ Bytes256 == 0..255
 Ids == Nat
 
 Next ==
-    \/ \E d \in Seq(Bytes256), ek \in {"eof", "fail"}, sz \in Nat : New(d, ek, sz)
+    \/ \E d \in Seq(Bytes256), ek \in {"eof", "fail"}, sz \in Nat, mk \in Int : New(d, ek, sz, mk)
     \/ \E d \in Seq(Bytes256) : NewBytes(d)
     \/ \E want \in Nat, bs \in Seq(Bytes256), e \in {"nil", "eof", "fail"} : ReaderRead(want, bs, e)
     \/ \E k \in Int, r \in Int, broken \in SUBSET Ids : Peek(k, r, broken)
@@ -44,8 +44,8 @@ THEOREM StepOK == IInv /\ [Next]_svars => IInv'
   <1> USE DEF IInv, N
   <1>0. Len(full) \in Nat OBVIOUS
   <1>1. CASE UNCHANGED svars BY <1>1 DEF svars
-  <1>2. CASE \E d \in Seq(Bytes256), ek \in {"eof", "fail"}, sz \in Nat : New(d, ek, sz)
-     <2>1. PICK d \in Seq(Bytes256), ek \in {"eof", "fail"}, sz \in Nat : New(d, ek, sz) BY <1>2
+  <1>2. CASE \E d \in Seq(Bytes256), ek \in {"eof", "fail"}, sz \in Nat, mk \in Int : New(d, ek, sz, mk)
+     <2>1. PICK d \in Seq(Bytes256), ek \in {"eof", "fail"}, sz \in Nat, mk \in Int : New(d, ek, sz, mk) BY <1>2
      <2>2. Len(d) \in Nat OBVIOUS
      <2> QED BY <2>1, <2>2 DEF New
   <1>3. CASE \E d \in Seq(Bytes256) : NewBytes(d)
